@@ -37,8 +37,19 @@ def c03(case):
         fails.append('evaluations %d exceed itersLimit %d' % (nglobal, case['iters']))
     if p.calls - (sol.numberOfLocalTrials + 1 if case.get('refine') else 0) > case['iters']:
         fails.append('the objective was called %d times by the global search, itersLimit is %d' % (p.calls, case['iters']))
+    resolution = None
     if 'Exception was thrown' in out:
-        fails.append('internal exception during Solve: ' + out.strip()[:200])
+        import re as _re
+        m = _re.search(r'x is outside of interval (\S+) (\S+) (\S+)', out)
+        if m and 'CalculateNextPointCoordinate: x is outside of interval' in out:
+            # the method's own guard: legitimate only as the recorded finding F8 - the interval to be subdivided consists of adjacent binary64
+            # numbers (at most one float strictly inside) while its Hoelder length is still >= eps, i.e. eps cannot be reached in binary64
+            xl, xr = float(m.group(2)), float(m.group(3))
+            adjacent = xl < xr <= math.nextafter(math.nextafter(xl, 2.0), 2.0)
+            if adjacent and hroot(xr - xl, n) >= case['eps'] and not fails:
+                resolution = (xl, xr)
+        if resolution is None:
+            fails.append('internal exception during Solve: ' + out.strip()[:200])
     p.log = p.log[:max(nglobal, 0)]
     # twin: step one iteration at a time and recompute the interval that was subdivided
     p2, s2 = build(case, refine=False)
@@ -48,7 +59,12 @@ def c03(case):
     with H.quiet():
         while k < case['iters']:
             before = [it.GetX() for it in H.items(s2)]
-            s2.DoGlobalIteration(1)
+            try:
+                s2.DoGlobalIteration(1)
+            except Exception as e:  # noqa
+                if resolution is not None and 'x is outside of interval' in str(e):
+                    break      # the twin meets the same guard; `k` trials were made
+                raise
             k += 1
             after = [it.GetX() for it in H.items(s2)]
             if k > 1:
@@ -59,6 +75,16 @@ def c03(case):
                 sel.append(hroot(before[j + 1] - before[j], n))
                 if sel[-1] < case['eps']:
                     stop_at = k; break
+    if resolution is not None:
+        # the guard may end the search early only where the stop rule had not fired and the budget was not exhausted; everything else
+        # (trial count of the twin, no earlier stop) is still checked; the caller reports this under its own signature (finding F8)
+        if stop_at is not None:
+            return fails + ['the guard "x is outside of interval" fired although iteration %d had already subdivided an interval below eps' % stop_at]
+        if len(p.log) != k:
+            return fails + ['Solve ended through the guard after %d trials, the single-stepped twin met it after %d' % (len(p.log), k)]
+        xl, xr = resolution
+        return fails or ['FLOAT-RESOLUTION: N=%d, eps=%g: Solve ends after %d of %d trials with accuracy %.3g >= eps through the guard "x is outside of interval" on [%r, %r], '
+                         'adjacent binary64 numbers of Hoelder length %.3g >= eps' % (n, case['eps'], len(p.log), case['iters'], sol.solutionAccuracy, xl, xr, hroot(xr - xl, n))]
     expect = stop_at if stop_at is not None else case['iters']
     total_pre = sum(k for _, k in pre)
     if total_pre > expect:      # the batches themselves (which do not test the stop rule) went past the stop point: Solve then adds nothing
